@@ -81,6 +81,15 @@ Theorem C02_step_frag_exact : forall legacy aa fd prev car fo k g, wf_dict fd ->
   resolve_step_full legacy aa fd prev car = Ok fo -> In (k, g) (fo_fgs fo) ->
   forall n, In n (node_keys g) -> records (fo_m6 fo) n k /\ In k (flat_map (real_of fd) (fo_meta fo)).
 Proof. exact step_frag_exact. Qed.
+(** exactness and one graph per coarse node, for the returned graphs *)
+Theorem C02_step_frag_exact_iff : forall legacy aa fd prev car fo k g, wf_dict fd -> wf_attrs fd ->
+  resolve_step_full legacy aa fd prev car = Ok fo -> In (k, g) (fo_fgs fo) ->
+  exists g0 fgs0, annotate_fragments (fo_meta fo) (fo_m6 fo) = Ok fgs0 /\ In (k, g0) fgs0 /\ node_keys g = node_keys g0 /\
+    forall n, In n (node_keys g0) <-> records (fo_m6 fo) n k.
+Proof. exact step_frag_exact_iff. Qed.
+Theorem C02_step_frag_keys : forall legacy aa fd prev car fo, wf_dict fd -> wf_attrs fd ->
+  resolve_step_full legacy aa fd prev car = Ok fo -> map fst (fo_fgs fo) = node_keys (fo_meta fo).
+Proof. exact step_frag_keys. Qed.
 (** every fragid value of the returned fine graph is a list of keys of coarse nodes with a fragment *)
 Theorem C02_step_fragid_real : forall legacy aa fd prev car fo, wf_dict fd -> wf_attrs fd ->
   resolve_step_full legacy aa fd prev car = Ok fo -> fid_inv (flat_map (real_of fd) (fo_meta fo)) (fo_mol fo).
